@@ -132,7 +132,7 @@ Gratuitous == /\ call.op \in AllocOps \cup {"realloc"}
 
 -----------------------------------------------------------------------------
 (* observation record *)
-Obs0 == [ev |-> "init", covered |-> TRUE, hitlive |-> FALSE, gratuitous |-> FALSE,
+Obs0 == [ev |-> "init", mapok |-> TRUE, covered |-> TRUE, hitlive |-> FALSE, gratuitous |-> FALSE,
          null |-> FALSE, justified |-> TRUE, content |-> TRUE, zero |-> TRUE, prefix |-> TRUE,
          placed |-> {}, before |-> {}]
 
@@ -226,6 +226,13 @@ RetEff(addr, content, zero, prefix) ==
         /\ call' = NoCall
         /\ UNCHANGED <<mapped, pieces, peak, reps, hw, base>>
 
+\* how the OS sees the memory that holds a live block (runs on the real OS): private to the process,
+\* anonymous, readable and writable - otherwise somebody else (a forked child, a file) can change a
+\* block's bytes behind its owner's back
+MapInfoEff(private, anon, rw) ==
+    /\ obs' = [Obs0 EXCEPT !.ev = "mapinfo", !.mapok = (private /\ anon /\ rw)]
+    /\ UNCHANGED <<mapped, pieces, live, call, holes, plive, peak, reps, hw, base>>
+
 \* the workload driver marks the end of a repetition (everything freed)
 \* (RepEffAt: the footprint as measured from outside - the process' address-space size in runs
 \* on the real OS, where `mapped` is not observed)
@@ -263,6 +270,8 @@ Accessible == /\ \A b \in live \ Subject : Covered(mapped, BlockIv(b))
               /\ ~obs.hitlive
 \* bytes change only through the owner; zeroed allocations are zero; realloc keeps the prefix
 Intact == obs.content /\ obs.zero /\ obs.prefix
+\* ... which includes other processes: the allocator's memory is private anonymous memory
+PrivateAnonymous == obs.mapok
 \* null only after an OS refusal during the call (or for an unsatisfiable request) ...
 NullJustified == obs.null => obs.justified
 \* ... and then nothing is lost: the set of live blocks is what it was before the call
